@@ -347,8 +347,10 @@ func (fr *Frame) havocLoc(st *State, env *Env, loc *Expr, pos token.Pos) {
 			if pt, ok := typesPointerElem(bi.t); ok {
 				fr.frameCheckRoot(st, bi.inner, "target("+loc.Args[0].String()+")", pos)
 				before := st.clone()
-				vc.havocPointee(st, bi.inner, pt, true, st.clk)
-				vc.assumeLinkedFresh(st, before, bi.inner, pt, st.clk)
+				// objects the callee allocates are born at or after the call and before its return
+				clk := vc.bumpClock(st)
+				vc.havocPointee(st, bi.inner, pt, true, clk)
+				vc.assumeLinkedFresh(st, before, bi.inner, pt, clk)
 				return
 			}
 		}
